@@ -65,9 +65,7 @@ def coq_case(c, o):
     return S.coq_slice_case(c, o)
 
 
-def in_domain(c):
-    nv = len(c["vertices"])
-    return all(0 <= i < nv for f in c["faces"] for i in f)
+in_domain = S.in_domain
 
 
 def oracle(c, o):
@@ -88,4 +86,6 @@ def oracle(c, o):
 
 
 def classify(c, o, failure, disagrees):
-    return None
+    if c.get("kind") == "unique_bincount":
+        return None
+    return S.negative_index_class(c, o, failure)
